@@ -29,13 +29,18 @@ def _mname(t):
     return (t.get("callee") or "").rsplit("::", 1)[-1]
 
 
+def _in(blk, declen_block):
+    return blk in declen_block if isinstance(declen_block, (set, frozenset, list, tuple)) else blk == declen_block
+
+
 def _is_len_minus_1(c, declen_block):
-    """canon c == (decoded_len(..) [as usize]) - 1"""
-    return c[0] == "bin" and c[1] == "Sub" and c[3] == ("c", 1) and c[2][0] == "call" and c[2][1].endswith("decoded_len") and c[2][3] == declen_block
+    """canon c == (decoded_len(..) [as usize]) - 1   (declen_block: the block of the decoded_len call, or a set of blocks of
+    decoded_len calls that are all applied to the same first byte)"""
+    return c[0] == "bin" and c[1] == "Sub" and c[3] == ("c", 1) and c[2][0] == "call" and c[2][1].endswith("decoded_len") and _in(c[2][3], declen_block)
 
 
 def _is_len(c, declen_block):
-    return c[0] == "call" and c[1].endswith("decoded_len") and c[3] == declen_block
+    return c[0] == "call" and c[1].endswith("decoded_len") and _in(c[3], declen_block)
 
 
 def _leaves(prog, fn, os_, depth=0):
@@ -77,26 +82,31 @@ def check_vu64_decoder(ctx, prog, rule="vu64-reader-consumes-encoded-length"):
     reads = [(b, t) for b, t in calls if _mname(t) in FIXED or _mname(t) in VARLEN or _mname(t) in SLICE]
     dl = [(b, t) for b, t in calls if _mname(t) == "decoded_len"]
     dec = [(b, t) for b, t in calls if _mname(t).startswith("decode_with_first")]
-    if not ctx.check(len(dl) == 1 and len(dec) == 1 and reads, rule, "shape-not-recognised",
-                     "expected one decoded_len call, one decode call and the byte reads (found %d / %d / %d)" % (len(dl), len(dec), len(reads)), where=where(fn)):
+    if not ctx.check(len(dl) >= 1 and len(dec) == 1 and reads, rule, "shape-not-recognised",
+                     "expected decoded_len call(s), one decode call and the byte reads (found %d / %d / %d)" % (len(dl), len(dec), len(reads)), where=where(fn)):
         return
+    dl.sort(key=lambda x: len(fn.dominators().get(x[0], ())))
     dlb, dlt = dl[0]
     decb, dect = dec[0]
-    # the first byte: the single read that dominates decoded_len and feeds it
+    # the first byte: the single read that dominates decoded_len and feeds it (several decoded_len calls - one per helper
+    # of a small wrapper type, say - must all be applied to that same byte)
     first = [(b, t) for b, t in reads if fn.dominates(b, dlb)]
     ok_first = len(first) == 1 and FIXED.get(_mname(first[0][1])) == 1
     if ok_first:
-        o = leaf_origins(prog, fn, dlt["args"][0], at=dlb, terminal_only=True)
-        ok_first = bool(o) and all(x.kind == "call" and x.block == first[0][0] for x in o)
-    ctx.check(ok_first, rule, "first-byte", "decoded_len is not applied to the one byte read first", where=where(fn, dlb))
-    follow = [(b, t) for b, t in reads if not fn.dominates(b, dlb)]
+        for db_, dt_ in dl:
+            o = leaf_origins(prog, fn, dt_["args"][0], at=db_, terminal_only=True)
+            ok_first = ok_first and bool(o) and all(x.kind == "call" and x.block == first[0][0] for x in o)
+    dlb = frozenset(b for b, t in dl) if len(dl) > 1 else dlb
+    dlb0 = dl[0][0]
+    ctx.check(ok_first, rule, "first-byte", "decoded_len is not applied to the one byte read first", where=where(fn, dlb0))
+    follow = [(b, t) for b, t in reads if not fn.dominates(b, dlb0)]
     # every follow read lies between decoded_len and the decode call
-    ctx.check(all(fn.dominates(dlb, b) and decb in fn.reachable(b) for b, t in follow), rule, "reads-between",
+    ctx.check(all(fn.dominates(dlb0, b) and decb in fn.reachable(b) for b, t in follow), rule, "reads-between",
               "a byte read lies outside the window between decoded_len and the decode call", where=where(fn))
     # decode arguments: (len, first byte, follow value)
     a0 = leaf_origins(prog, fn, dect["args"][0], at=decb, terminal_only=True)
     a1 = leaf_origins(prog, fn, dect["args"][1], at=decb, terminal_only=True)
-    ok_args = bool(a0) and all(x.kind == "call" and x.block == dlb for x in a0) and bool(a1) and ok_first and all(x.kind == "call" and x.block == first[0][0] for x in a1)
+    ok_args = bool(a0) and all(x.kind == "call" and _in(x.block, dlb) for x in a0) and bool(a1) and ok_first and all(x.kind == "call" and x.block == first[0][0] for x in a1)
     if len(dect["args"]) > 2:
         a2 = _leaves(prog, fn, leaf_origins(prog, fn, dect["args"][2], at=decb, terminal_only=True))
         fb = {b for b, t in follow}
@@ -122,7 +132,7 @@ def check_vu64_decoder(ctx, prog, rule="vu64-reader-consumes-encoded-length"):
     sw = None
     for b, blk in enumerate(fn.blocks):
         t = blk["term"]
-        if blk["cleanup"] or not t or t["t"] != "switch" or t["dty"] == "bool" or not fn.dominates(dlb, b) or b == dlb:
+        if blk["cleanup"] or not t or t["t"] != "switch" or t["dty"] == "bool" or not fn.dominates(dlb0, b) or _in(b, dlb):
             continue
         c = cn.op(t["discr"], b)
         if _is_len_minus_1(c, dlb):
